@@ -232,6 +232,9 @@ def make(fmt, rng, variant="plain", natom=None):
         kw.update(lot=rng.choice(["B3LYP", "Restricted HF", "ccsd(t)"]))     # written to the <Model> section
     # what the readers of these formats leave under `extra` (the caller's dictionary, not the writer's scratch space)
     kw["extra"] = {"virial_ratio": 2.00123, "keywords": "GTO", "nested": {"list": [1, 2, {"deep": True}]}}
+    if fmt == "wfx":
+        # optional sections of a WFX file whose legitimate value is zero
+        kw["extra"].update(num_core_electrons=0, nuc_viral=0.0, full_virial_ratio=2.00123 if rng.random() < 0.5 else 0.0, num_perturbations=0)
     if mo.kind == "restricted":
         kw["extra"]["mo_spin"] = np.full(mo.norba, 3)              # the Multiwfn spin section of a WFN file: 1 alpha, 2 beta, 3 both
     elif mo.kind == "unrestricted":
